@@ -57,14 +57,17 @@ def families(tier, seed):
 
 def main():
     chk = Check("C17", "exploration")
-    driver.run_family(
-        chk, "grid_search-vs-individual-runs", families(chk.tier, chk.seed), cases.case_fn, site="C17/grid_search",
+    _cases = families(chk.tier, chk.seed)
+    _results = driver.run_family(
+        chk, "grid_search-vs-individual-runs", _cases, cases.case_fn, site="C17/grid_search",
         rule="a two-node circuit with distinct per-node parameters; grids over node parameters (one and two targets per key), edge "
              "weights, mixed node+edge, a permuted 2x3 grid, a DataFrame grid with a shuffled index, a template passed as object with "
              "an edge attribute, an extrinsic input, two grid keys on different attributes (weight, delay) of one edge, two edges under one "
              "key, a circuit whose edges are built from an EdgeTemplate; vectorize on and off; every row of the returned table against the spec trajectory "
              "of the circuit with that row's values (rtol 1e-6), labels and table contents; distinct = (scenario, vectorize)",
         sample_of=lambda c: {k: v for k, v in c.items() if k not in ("features", "model")})
+    driver.run_sequences(chk, "grid_search-vs-individual-runs-in-sequence", _cases, _results, cases.case_fn, site="C17/grid_search",
+                         limit=20 if chk.tier == "quick" else 120, seed=chk.seed)
     rc = chk.finish(
         explanation="Bounded: grid_search's table and series against the reference semantics of each individually parametrised circuit.",
         assumptions=["mdl_override + spec_fixed_step (harness)", "column labels (key, circuit name, node, 'op/var')"])
